@@ -43,7 +43,9 @@ def show(v):
 
 def rule_output_checkers(ctx):
     R, F = ctx.R, ctx.F
-    P = ('C12',)
+    # the built-in checkers are part of what C01 quantifies over (tasks whose outputs depend only on what their checkers
+    # *are documented to* observe): a checker that observes less than documented lets a stale output be reused
+    P = ('C12', 'C01')
     n = 0
     for name, (kind, rel, doc) in RELATIONS.items():
         st = [b for b in F.bodies.values() if b.impl_trait == OC and b.impl_self == name and b.name == 'stamp']
